@@ -66,6 +66,22 @@ const (
 	E_ReadSessionKey = 90
 	E_ReadSessionTag = 91
 	E_ReadECIESSessionTag = 92
+	E_LS2Expiration = 100
+	E_MetaExpiration = 101
+	E_EncExpiration = 102
+	E_LeaseTime = 103
+	E_Lease2Time = 104
+	E_NewLease2 = 105
+	E_NewLease = 106
+	E_OfflineExpires = 107
+	E_MetaEntryExpires = 108
+	E_NewestOldest = 109
+	E_VerifyRouterInfo = 120
+	E_VerifyLeaseSet = 121
+	E_VerifyLeaseSet2 = 122
+	E_VerifyMetaLeaseSet = 123
+	E_VerifyEncryptedLeaseSet = 124
+	E_VerifyOfflineSignature = 125
 )
 
 var entryNames = map[int]string{
@@ -133,4 +149,20 @@ var entryNames = map[int]string{
 	90: "ReadSessionKey",
 	91: "ReadSessionTag",
 	92: "ReadECIESSessionTag",
+	100: "LS2Expiration",
+	101: "MetaExpiration",
+	102: "EncExpiration",
+	103: "LeaseTime",
+	104: "Lease2Time",
+	105: "NewLease2",
+	106: "NewLease",
+	107: "OfflineExpires",
+	108: "MetaEntryExpires",
+	109: "NewestOldest",
+	120: "VerifyRouterInfo",
+	121: "VerifyLeaseSet",
+	122: "VerifyLeaseSet2",
+	123: "VerifyMetaLeaseSet",
+	124: "VerifyEncryptedLeaseSet",
+	125: "VerifyOfflineSignature",
 }
